@@ -176,3 +176,59 @@ Proof.
   destruct z as [|q|q]; simpl; try (repeat split; intros x Hx; simpl in *; tauto).
   repeat (destruct q as [q|q|]; simpl; try (repeat split; intros x Hx; simpl in *; tauto)).
 Qed.
+
+(* ------------------------------------------------------------------ (b) for any number of WORKERS
+   The theorems above are about one worker.  For many workers, barrier() and bvalue() are extra
+   scheduling dependencies of the tasks defined after them ((a) above is what justifies this reading:
+   the loader defines a task after a barrier only when everything in front of it is stored, and after
+   bvalue(a) only with a stored), and the execution protocol of C01/C02 (Model/Exec.v) applies to the
+   program with those edges added ([ExecCase.bprogram]: the full sequential unfolding of the jugfile
+   with, for each task, the tasks it waits for through barriers).  The traces of several real workers
+   running the real reload loop on such programs are validated against it in every run of this check. *)
+From JugV Require Model.Deps Model.Exec Model.ExecCase Model.ExecExample Proofs.ExecFacts Proofs.ExecProgFacts Proofs.ExecTheorems.
+
+(* no task behind a barrier is started, by any worker in any interleaving, before everything the
+   barrier makes it wait for is stored *)
+Theorem C14_many_workers_nothing_starts_before_the_barrier_opens :
+  forall (bp : ExecCase.bprogram) r0 tr s w t s', ExecTheorems.reach (ExecCase.bprog_cfg bp) r0 tr s ->
+  Exec.step (ExecCase.bprog_cfg bp) s (Exec.EStart w t) = Some s' ->
+  forall d, In d (ExecCase.extra_of (ExecCase.bp_extra bp) t) ->
+            In t (map Deps.t_id (ExecCase.p_tasks (ExecCase.bp_prog bp))) -> Exec.results s d <> None.
+Proof. exact ExecTheorems.nothing_after_a_barrier_starts_early. Qed.
+Print Assumptions C14_many_workers_nothing_starts_before_the_barrier_opens.
+
+(* any number of workers, any number of barrier phases, any interleaving: every value ever stored is
+   the sequential value (sequential evaluation ignores barriers) ... *)
+Theorem C14_many_workers_values_are_sequential : forall (bp : ExecCase.bprogram), ExecCase.wf_bprog bp = true ->
+  forall r0 tr s order, ExecTheorems.reach (ExecCase.bprog_cfg bp) r0 tr s -> ExecFacts.topo (ExecCase.bprog_cfg bp) [] order ->
+  forall t v, In t order -> Exec.results s t = Some v -> Exec.seq_eval (ExecCase.bprog_cfg bp) order r0 t = Some v.
+Proof. exact ExecTheorems.barrier_program_values_are_sequential. Qed.
+Print Assumptions C14_many_workers_values_are_sequential.
+
+(* ... and when every worker has left (no stop request, no crash) every task of every phase that neither
+   raises nor waits - through arguments or barriers - for one that raises has its result *)
+Theorem C14_many_workers_complete : forall (bp : ExecCase.bprogram), ExecCase.wf_bprog bp = true ->
+  forall r0 tr s, ExecTheorems.reach (ExecCase.bprog_cfg bp) r0 tr s ->
+  forallb (ExecFacts.okev (ExecCase.bprog_cfg bp)) tr = true ->
+  ExecFacts.quiescent ExecTheorems.all_workers s -> (exists w c, Exec.w_pc (Exec.ws s w) = Exec.PDone c) ->
+  forall t, In t (Exec.c_tasks (ExecCase.bprog_cfg bp)) ->
+    (Exec.results s t <> None <-> ~ ExecFacts.doomed (ExecCase.bprog_cfg bp) (Exec.results s) t).
+Proof. exact ExecTheorems.barrier_program_complete. Qed.
+Print Assumptions C14_many_workers_complete.
+
+(* non-vacuity: a = g1(); barrier(); b = g2() run by two workers.  At the start the function of b cannot
+   be started (b waits for a through the barrier although it takes no argument); the two-worker trace is a
+   run of the protocol, both workers leave, both tasks end stored with their sequential values *)
+Example C14_many_workers_nonvacuous :
+  ExecCase.wf_bprog ExecExample.ex_bprog = true /\
+  (forall w, Exec.step (ExecCase.bprog_cfg ExecExample.ex_bprog)
+               (Exec.set_w (Exec.init (Deps.st_of [])) w (Exec.act 1%nat Exec.fresh_w (Exec.PCleared 2%positive)))
+               (Exec.EStart w 2%positive) = None) /\
+  exists s, Exec.run (ExecCase.bprog_cfg ExecExample.ex_bprog) (Exec.init (Deps.st_of [])) ExecExample.ex_btrace = Some s /\
+            map (Exec.results s) [1; 2]%positive = [Some ExecExample.ex_ba; Some ExecExample.ex_bb] /\
+            Exec.w_pc (Exec.ws s 0%nat) = Exec.PDone 0%nat /\ Exec.w_pc (Exec.ws s 1%nat) = Exec.PDone 0%nat.
+Proof.
+  split; [reflexivity|]. split.
+  - intros w. unfold Exec.step, Exec.step0, Exec.set_w, Exec.updw. simpl. rewrite PeanoNat.Nat.eqb_refl. reflexivity.
+  - eexists. vm_compute. repeat split; reflexivity.
+Qed.
